@@ -19,8 +19,11 @@ import (
 
 type Runner struct {
 	pool []*dataframe.DataFrame
-	pf   map[string]bool // strings whose ParseFloat result the model may ask for
-	tp   map[[2]string]bool
+	// when set, row-wise Apply runs with its completion order forced: pick chooses among the waiting rows
+	pick     func(waiting []int, k int) int
+	realised []int
+	pf       map[string]bool // strings whose ParseFloat result the model may ask for
+	tp       map[[2]string]bool
 }
 
 func NewRunner(frames []Frame) *Runner {
@@ -287,6 +290,12 @@ func (r *Runner) Exec(o Op) (out Out) {
 			defer func() { os.Stdout = saved; devnull.Close() }()
 			if o.Axis == nil {
 				res, err = df.Apply(applyFn(o.Fn))
+			} else if r.pick != nil && len(*o.Axis) > 0 && (*o.Axis)[0] != 0 {
+				ax := make([]int, len(*o.Axis))
+				for i, v := range *o.Axis {
+					ax[i] = int(v)
+				}
+				r.realised = runScheduled(df.Nrows(), r.pick, func() { res, err = df.Apply(applyFn(o.Fn), ax...) })
 			} else {
 				ax := make([]int, len(*o.Axis))
 				for i, v := range *o.Axis {
